@@ -70,7 +70,7 @@ Value& HEXExpression::value(Context & ctx) const
           n = *arg1.integer();
           break;
         case Type::NUMERIC:
-          n = Integer(*arg1.numeric());
+          n = Value::toInteger(*arg1.numeric());
           break;
         default:
           throw RuntimeError(EXC_RT_FUNC_ARG_TYPE_S, KEYWORDS[FUNC_HEX]);
@@ -82,7 +82,7 @@ Value& HEXExpression::value(Context & ctx) const
       v = Value(new Literal(hex(*arg0.integer(), n)));
       break;
     case Type::NUMERIC:
-      v = Value(new Literal(hex(Integer(*arg0.numeric()), n)));
+      v = Value(new Literal(hex(Value::toInteger(*arg0.numeric()), n)));
       break;
     default:
       throw RuntimeError(EXC_RT_FUNC_ARG_TYPE_S, KEYWORDS[FUNC_HEX]);
